@@ -534,6 +534,67 @@ def gen_core_expr(rng, names: list[str], depth: int, flags: set[str]) -> tuple:
     return ("callname", rng.choice(["max", "min"]), [sub() for _ in range(rng.randint(2, 3))], False)
 
 
+def subst_names(e, mp: dict[str, str]):  # noqa: ANN001
+    """`e` (expression tuple / list of them) with every ("name", x) leaf renamed through `mp` (simultaneously)."""
+    if isinstance(e, list):
+        return [subst_names(x, mp) for x in e]
+    if not isinstance(e, tuple):
+        return e
+    if e and e[0] == "name":
+        return ("name", mp.get(e[1], e[1]))
+    if e and e[0] in ("constother", "other"):
+        return e
+    return tuple(subst_names(x, mp) for x in e)
+
+
+def own_name_binding(rng, pool: list[str], k: int) -> tuple[list[str], list[str], str] | None:
+    """A function whose OWN parameter names are model names bound in ANOTHER position: -> (params, args, mode).
+    swap / rotation / permutation of the same k names; chain f(a, b) bound to [b, c]; overlap (some parameters are
+    model names used elsewhere in the argument list, the others are not); repeat (one model name bound twice)."""
+    if k < 1 or len(pool) < 1:
+        return None
+    modes = ["chain", "overlap"] if len(pool) > k else []
+    if k >= 2 and len(pool) >= k:
+        modes += ["swap", "rotation", "permutation"]
+    if k >= 2 and len(pool) >= k - 1:
+        modes += ["repeat"]
+    if not modes:
+        return None
+    mode = rng.choice(modes)
+    if mode in ("swap", "rotation", "permutation"):
+        params = rng.sample(pool, k)
+        if mode == "swap":
+            i, j = rng.sample(range(k), 2)
+            args = list(params)
+            args[i], args[j] = args[j], args[i]
+        elif mode == "rotation":
+            r = rng.randint(1, k - 1)
+            args = params[r:] + params[:r]
+        else:
+            args = list(params)
+            while args == params:
+                rng.shuffle(args)
+        return params, args, mode
+    if mode == "chain":
+        xs = rng.sample(pool, k + 1)
+        return (xs[:k], xs[1:], mode) if rng.random() < 0.75 else (xs[1:], xs[:k], "chain-reversed")
+    if mode == "overlap":
+        xs = rng.sample(pool, k + 1)
+        args = xs[:k]
+        params = list(args)
+        rng.shuffle(params)
+        params[rng.randrange(k)] = xs[k]  # one parameter is a model name that is not bound at all
+        return params, args, mode
+    # repeat: one model name is bound to two parameters (the renaming is not injective)
+    params = [f"p{i}" for i in range(k)]
+    base = rng.sample(pool, k - 1)
+    args = base + [rng.choice(base)]
+    rng.shuffle(args)
+    if rng.random() < 0.5 and len(pool) >= k:
+        params = rng.sample(pool, k)
+    return params, args, mode
+
+
 def gen_function(rng, n_params: int, depth: int, wild: bool) -> dict:
     params = [f"p{i}" for i in range(n_params)]
     flags: set[str] = set()
